@@ -1,7 +1,7 @@
 """C13 — interpolation honours the data and the requested grid."""
 from tools.harness.core import Property
 from tools.props.weaver_units import WeaverUnit
-from tools.props.proc_units import InterpUnit
+from tools.props.proc_units import InterpUnit, InterpOracleUnit
 
 
 class WC13(WeaverUnit):
@@ -13,7 +13,7 @@ class C13(Property):
     gen_targets = ["Funfit"]
 
     def units(self, tier):
-        return [InterpUnit(), WC13(("C13",), ops=['interpolate','interpolate','shift_x','scale_y','append','repeat'], max_len=6, queries=False)]
+        return [InterpUnit(), InterpOracleUnit(), WC13(("C13",), ops=['interpolate','interpolate','shift_x','scale_y','append','repeat'], max_len=6, queries=False)]
 
 
 PROPERTY = C13()
